@@ -141,6 +141,9 @@ type c26Case struct {
 	txNeed  []uint64           // max(intrinsic, floor) of transaction i
 	world   *ep.World
 	classes []string
+	// excluded counts triggers of the acknowledged finding "deposit-layout" that the
+	// generator replaced by a canonical record.
+	excluded int
 }
 
 func (c *c26Case) class(s string) { c.classes = append(c.classes, s) }
@@ -793,6 +796,7 @@ func c26DepositData(rt *rapid.T, c *c26Case) []byte {
 			return data
 		}
 		c.class("deposit:bad-layout-excluded")
+		c.excluded++
 	}
 	c.class("deposit:canonical")
 	return data
@@ -1104,6 +1108,9 @@ func c26Property(st *vs.S, d c26Domain) func(rt *rapid.T) {
 		}
 		for _, cl := range c.classes {
 			sc.Class(cl)
+		}
+		for i := 0; i < c.excluded; i++ {
+			st.Excluded()
 		}
 		sc.Classf("included:%d", len(ref.Receipts))
 		for _, r := range ref.Rejected {
